@@ -50,7 +50,7 @@ type Link struct {
 	Href IRI `jsonld:"href,omitempty"`
 	// Hints as to the language used by the target resource.
 	// Value must be a [BCP47](https://tools.ietf.org/html/bcp47) Language-Tag.
-	HrefLang LangRef `jsonld:"hrefLang,omitempty"`
+	HrefLang LangRef `jsonld:"hreflang,omitempty"`
 }
 
 // Mention is a specialized Link that represents an @mention.
